@@ -17,6 +17,11 @@ pub uninterp spec fn js_lit(s: Seq<char>) -> Seq<char>;
 pub fn gen_lit_str(s: &str) -> (r: String)
     ensures r@ == js_lit(s@),
 { unimplemented!() }
+/// escape::gen_lit_float: a NumericLiteral that JavaScript and the template parser read back as the value (`1e999` for infinity)
+#[verifier::external_body]
+pub fn gen_lit_float(x: f64) -> (r: String)
+    ensures r@ == display_f64(x),
+{ unimplemented!() }
 #[verifier::external_body]
 pub fn vx_fmt_id(s: &String) -> (r: String)
     ensures r@ == s@,
